@@ -621,7 +621,9 @@ class TemplateNamespace(Namespace):
             return functools.partial(callable_, self.context)
 
         for k in self.template.module._exports:
-            yield (k, get(k))
+            # defs written inside the namespace tag take precedence
+            if not self.callables or k not in self.callables:
+                yield (k, get(k))
 
     def __getattr__(self, key):
         if key in self.callables:
@@ -676,6 +678,8 @@ class ModuleNamespace(Namespace):
             for key in self.callables:
                 yield (key, self.callables[key])
         for key in dir(self.module):
+            if self.callables and key in self.callables:
+                continue
             if key[0] != "_":
                 callable_ = getattr(self.module, key)
                 if callable(callable_):
